@@ -353,9 +353,9 @@ class SMPose(SMUserList):
         :SymPy: not supported
         """
         if self.N == 2:
-            log = [base.trlog2(x, twist=twist) for x in self.data]
+            log = [base.trlog2(x, check=False, twist=twist) for x in self.data]
         else:
-            log = [base.trlog(x, twist=twist) for x in self.data]
+            log = [base.trlog(x, check=False, twist=twist) for x in self.data]
         if len(log) == 1:
             return log[0]
         else:
